@@ -92,12 +92,11 @@ impl Network {
 
         let public_key = wallet.public_key;
 
+        // a transaction without inputs (as a peer may send) has no sender to compare with
         if transaction
             .from
             .first()
-            .expect("from slip should exist")
-            .public_key
-            == public_key
+            .is_some_and(|slip| slip.public_key == public_key)
         {
             if let TransactionType::GoldenTicket = transaction.transaction_type {
             } else {
